@@ -83,16 +83,19 @@ func defFor(check string) *checkDef {
 	case "C13":
 		return &checkDef{property: "C13", level: "fault_enumeration", timeout: 600 * time.Second, special: true,
 			budget: map[string]tierCfg{"quick": {1, 300}, "thorough": {1, 600}},
-			rule:   "exhaustive enumeration, against the real FileSystemDirectory over the hooked os package, of: item kind {segment, snapshot} x item size {0,1,4095,4096,4097,3 buffers+5} x buffered/unbuffered item writer x pre-existing file {absent, shorter, equal, longer} x item-writer outcome {ok, error after k bytes, cancelled before, cancelled after k bytes} x os fault {none, open EACCES/EMFILE, truncate EIO, write ENOSPC/EIO after k bytes, fsync EIO, close EIO}, k over the boundary set {0,1,size/2,size-1,size,4095,4096,4097}. Oracle: on nil the file holds exactly the bytes written, the os event log shows a successful Sync on it after the last write/truncate and before return, no injected non-write fault was swallowed; on error or cancellation nothing is left under the item's name (an untouched pre-existing file is accepted only when the failure preceded any change). non-trivial = a fault, a failing/cancelled item writer or a pre-existing file is involved",
+			rule:   "exhaustive enumeration, against the real FileSystemDirectory over the hooked os package, of: item kind {segment, snapshot} x item size {0,1,4095,4096,4097,3 buffers+5} x buffered/unbuffered item writer x pre-existing file {absent, shorter, equal, longer} x item-writer outcome {ok, error after k bytes, cancelled before, cancelled after k bytes} x os fault {none, open EACCES/EMFILE, truncate EIO, write ENOSPC/EIO after k bytes, fsync EIO, close EIO}, k over the boundary set {0,1,size/2,size-1,size,4095,4096,4097}; plus: the item's file held by another party with a shared or an exclusive lock (Persist must fail and leave that file byte for byte). Oracle: on nil the file holds exactly the bytes written, the os event log shows a successful Sync on it after the last write/truncate and before return, no injected non-write fault was swallowed; on error or cancellation nothing is left under the item's name (an untouched pre-existing file is accepted only when the failure preceded any change). non-trivial = a fault, a failing/cancelled item writer or a pre-existing file is involved",
 			assume: []string{"os.File.Sync is the flush to stable storage (observed at the os seam through a go build -overlay hook)", "single caller: Persist of one item is not raced with another Persist of the same name"},
 		}
 	case "C12big":
 		d := defFor("C12")
 		return d
+	case "C04mem":
+		return defFor("C04")
 	case "C04":
 		return &checkDef{property: "C04", level: "exploration",
+			variants: []string{"C04", "C04", "C04", "C04mem"},
 			budget: map[string]tierCfg{"quick": {2500, 75}, "thorough": {100000, 1500}},
-			rule:   "one simulated run per seed: 1-3 client actors hold up to three Readers of different ages open while batches, in-memory merges, file merges, persist swaps, clean-ups (unlinks) and writer Close are scheduled between their reads; the first full read of a reader (count, match-all with stored fields, lookup by id, sorted top-N over document values, aggregations, dictionary scan, phrase/boolean/conjunction/disjunction/range/prefix queries, scored nested booleans, and 6-11 queries generated per run from all public query types, with scores) is its baseline, checked against the abstract index at acquisition; right after acquisition, while the reader is still the writer's current root, the same reads are repeated twice in rotated order and must agree (answers must not depend on search history); every later read, again in another order, must be identical; in one run of four the writer is closed at an arbitrary moment (while merges and persists are in progress) instead of at quiescence, and in half of the runs the held readers stay open over Writer.Close and are read once more after it returned; a third of the runs disable the query optimisations. distinct = distinct release sequences; non-trivial = a background step was interleaved between two client operations",
+			rule:   "one simulated run per seed (three in four on the file-system directory, one in four on the in-memory directory): 1-3 client actors hold up to three Readers of different ages open while batches, in-memory merges, file merges, persist swaps, clean-ups (unlinks) and writer Close are scheduled between their reads; the first full read of a reader (count, match-all with stored fields, lookup by id, sorted top-N over document values, aggregations, dictionary scan, phrase/boolean/conjunction/disjunction/range/prefix queries, scored nested booleans, and 6-11 queries generated per run from all public query types, with scores) is its baseline, checked against the abstract index at acquisition; right after acquisition, while the reader is still the writer's current root, the same reads are repeated twice in rotated order and must agree (answers must not depend on search history); every later read, again in another order, must be identical; in one run of four the writer is closed at an arbitrary moment (while merges and persists are in progress) instead of at quiescence, and in half of the runs the held readers stay open over Writer.Close and are read once more after it returned; a third of the runs disable the query optimisations. distinct = distinct release sequences; non-trivial = a background step was interleaved between two client operations",
 			assume: commonAssume,
 			probes: []string{"reader-held-across-unlink-of-other-files", "remove-refused-while-reader-open", "reader-held-across-merge", "reader-reread", "file-merge", "in-memory-merge", "held-reader-read-after-writer-close", "close-while-background-work-in-progress"}}
 	case "C05":
